@@ -187,6 +187,14 @@ def run(report, tier, seed):
               '=Total_Revenue_For_The_Fiscal_Year_2023_Q4_Grand_Total*2', '=ABCDEFGHIJKLMNOPQRSTUVWXYZABCDEFGHIJKLMN(1)', '=1' + '0' * 40 + '+A1', '=A1+' + 'Z' * 48, '=SUM(' + 'x_' * 24 + ')',
               '=' + 'A1.' * 16 + 'A1', "='" + "a'" * 20 + "'!A1", '="abc' + 'd' * 40, '=SUM(1,"x' + 'y' * 35 + ')', '=A1&"' + ' z' * 20,
               '=COUNTIFS(A1:A3,"<-05")', '=COUNTIFS(A1:A3,">=-007.50")', '=SUMIF(A1:A3,"<>-0",B1:B3)']
+    # deep nesting: the cost of parsing must not explode with the depth of nested calls (30 s bound each)
+    def nest(fn, depth, tail):
+        f = 'A1'
+        for i in range(depth):
+            f = fn + '(' + tail.format(f=f, i=i) + ')'
+        return '=' + f
+    probes += [nest('IF', 8, 'A1>{i},{f},{i}'), nest('IF', 12, 'A1>{i},{f},{i}'), nest('SUM', 10, '{f},{i}'), nest('ROUND', 9, '{f},{i}'), nest('IFERROR', 8, '{f},{i}'),
+               nest('IF', 9, 'A1>{i},{f},{i}') + '+', '=IF(A1>1,IF(A1>2,IF(A1>3,IF(A1>4,IF(A1>5,IF(A1>6,IF(A1>7,1,2),3),4),5),6),7),8,9)']
     for ptxt in probes:
         out = timed_probe(ptxt)
         ok = out.startswith("('ok'") or out.startswith("('library'")
